@@ -7,7 +7,7 @@ from harness.core import use_repo, Divergence
 TABLE = {
     'd1': {'p': [1, 1, 2], 'q': [2, 3, 3]},
     'd2': {'p': [1, 2, 3], 'q': [3, 3, 1]},
-    'd3': {'p': [2, 2, 1], 'q': [1, 3, 2]},
+    'd3': {'p': [2, 2, 1], 'q': [1, 3, 2], 't': [11, 12, 13]},       # t: a text column (its keys equal no numeric key)
     'd4': {'p': [3, 1, 1], 'q': [2, 2, 3]},
 }
 MENU = {
@@ -15,6 +15,7 @@ MENU = {
     'J4': ('d1', ('p', 'q'), 'd2', ('p', 'q')), 'J5': ('d2', ('p',), 'd3', ('p', 'q')),
     'J6': ('d3', ('p', 'q'), 'd4', ('p',)), 'J7': ('d4', ('q',), 'd1', ('p',)),
     'J8': ('d2', ('p', 'q'), 'd4', ('q', 'p')),
+    'J9': ('d2', ('p',), 'd3', ('p', 't')),      # one key against a numeric and a text column
 }
 STR = {1: 'a', 2: 'bb', 3: 'ccc'}
 
@@ -47,7 +48,7 @@ class JWorld(object):
         self.data = {}
         for d, cols in TABLE.items():
             kind, dtype = VARIANTS[variant][d]
-            kw = {c: column(v, kind, dtype) for c, v in cols.items()}
+            kw = {c: (np.array(['k%d' % k for k in v]) if c == 't' else column(v, kind, dtype)) for c, v in cols.items()}
             kw['v'] = np.array([1.0, 2.0, 3.0])
             self.data[d] = Data(label=d, **kw)
         self.dc = DataCollection(list(self.data.values()))
